@@ -85,6 +85,9 @@ PROPS["C09"] = {
         {"pkg": ".", "dir": "s3db", "entry": "VerifH_C09_vacuum", "tag": "-cache-two-rounds",
          "quick": {"params": "steps=2,rounds=2,cache=8", "workers": 16, "timeout": 1800},
          "thorough": {"params": "steps=3,rounds=2,cache=8", "workers": 16, "timeout": 7200}},
+        {"pkg": "kv", "dir": "kv", "entry": "VerifH_C09_kv_history", "tag": "-faults",
+         "quick": {"params": "steps=3,faults=1", "workers": 16, "timeout": 1200},
+         "thorough": {"params": "steps=4,faults=1,maxfault=24", "workers": 16, "timeout": 6000}},
         {"pkg": "kv", "dir": "kv", "entry": "VerifH_C09_kv_history",
          "quick": {"params": "steps=5", "workers": 16, "timeout": 1200},
          "thorough": {"params": "steps=6", "workers": 16, "timeout": 6000}},
@@ -169,6 +172,9 @@ PROPS["C11"] = {
         {"pkg": ".", "dir": "s3db", "entry": "VerifH_C11_versions",
          "quick": {"params": "steps=3", "workers": 16, "timeout": 1200},
          "thorough": {"params": "steps=4", "workers": 16, "timeout": 6000}},
+        {"pkg": ".", "dir": "s3db", "entry": "VerifH_C11_versions", "tag": "-faults",
+         "quick": {"params": "steps=2,faults=1", "workers": 16, "timeout": 1200},
+         "thorough": {"params": "steps=3,faults=1", "workers": 16, "timeout": 6000}},
     ],
     "bounds": {"quick": "two writers on one bucket, 3 steps from {insert+commit, update+commit, empty commit, refresh (re-open), read-only open by a third party}; every recorded version re-read at the end",
                "thorough": "4 steps"},
